@@ -98,10 +98,19 @@ def kv_models(src_codec, dst_codec, same_metric):
     @reg(r"^heed::Database::<.*>::range(_mut)?::<")
     def _(eng, st, callee, a, ty):
         r = eng.deref(a[2])
+        top = (0xFFFF, 0xFF, 0xFFFFFFFF)
         if r.kind == "Range":
             lo, hi, inc = concrete_key(eng, Ref(Cell(r.f[0]))), concrete_key(eng, Ref(Cell(r.f[1]))), False
         elif r.kind == "RangeInclusive":
             lo, hi, inc = concrete_key(eng, Ref(Cell(r.f[0]))), concrete_key(eng, Ref(Cell(r.f[1]))), True
+        elif r.kind == "RangeFrom":
+            lo, hi, inc = concrete_key(eng, Ref(Cell(r.f[0]))), top, True
+        elif r.kind == "RangeTo":
+            lo, hi, inc = (0, 0, 0), concrete_key(eng, Ref(Cell(r.f[0]))), False
+        elif r.kind == "RangeToInclusive":
+            lo, hi, inc = (0, 0, 0), concrete_key(eng, Ref(Cell(r.f[0]))), True
+        elif r.kind == "RangeFull":
+            lo, hi, inc = (0, 0, 0), top, True
         else:
             raise E.Unknown("range bounds of kind " + r.kind)
         return one(mk_ok(Opaque("Cursor", {"index": None, "mode": None, "cur": None, "lo": lo, "hi": hi, "inc": inc})))
